@@ -473,10 +473,16 @@ func runC08(c *vh.Ctx) {
 		"BOM and BOM fragments, a, space, separator fragments} and structured rows (plain / quoted / sloppily quoted fields, LF or CRLF, " +
 		"blank and comment lines, missing final newline, optional BOM); every chunking of short inputs, every single cut and byte-at-a-time " +
 		"for longer ones, EOF alone or with the last chunk; round trip: field lists over {sep, \", LF, CR, space, tab, NBSP, BOM, #, \\, ., a}; " +
+		"size x path: records/fields around 4 KiB, 64 KiB +-1, 128 KiB on main loop, getline, getline<file, cmd|getline, $0=, split(); " +
+		"reuse: 2-3 Execute calls on one Interpreter with different input/output mode, separators, comment, header, CRLF, Output object; " +
+		"Output objects: bytes.Buffer and bufio.Writer of 16..65536 bytes; " +
 		"non-trivial = the input has a quote, a separator or a line break inside and (for schedules) at least one cut")
 	c08ReadPart(c)
 	c08RoundTripPart(c)
 	c08GetlinePart(c)
+	c08PathsPart(c)
+	c08ReusePart(c)
+	c08OutputObjPart(c)
 }
 
 func c08ReadPart(c *vh.Ctx) {
